@@ -129,6 +129,14 @@ def prog_rec_unbounded(path):
     return "function go(n) { return 1 + %s; }\n%s\nvar out = %s;\nString(out)" % (inv.replace("{A}", "(n + 1)"), setup, inv.replace("{A}", "1"))
 
 
+def prog_rec_retry(path):
+    """unbounded recursion whose deepest level catches the refusal and retries the refused call many times, again
+    at every new record depth: a recursion guard that loses count under refusals lets the native stack run out"""
+    name, setup, inv = path
+    return ("var deepest = 0;\nfunction go(n) { try { return 1 + %s; } catch (e) { if (n > deepest) { deepest = n; for (var i = 0; i < 3000; i++) { try { %s; } catch (e2) { } } } throw e; } }\n%s\nvar out = %s;\nString(out)"
+            % (inv.replace("{A}", "(n + 1)"), inv.replace("{A}", "(n + 1)"), setup, inv.replace("{A}", "1")))
+
+
 def prog_rec_finite(path, depth):
     name, setup, inv = path
     return "function go(n) { if (n <= 0) return 0; return 1 + %s; }\n%s\nvar out = %s;\nString(out)" % (inv.replace("{A}", "(n - 1)"), setup, inv.replace("{A}", str(depth)))
@@ -216,11 +224,12 @@ DEEP = [
 
 def cases(tier):
     out = []
-    depth_fin = 10_000 if tier == "quick" else 100_000
+    depth_fin = 10_000 if tier == "quick" else 30_000   # (the collector's cost grows with the live stack: 10^5 frames take minutes; see DESIGN.md)
     for p in PATHS:
         out.append({"id": "path|%s|loop" % p[0], "src": prog_loop(p), "step_budget": 300_000, "depth_limit": 1000, "step_vm_budget": 1_000_000, "kind": "loop", "path": p[0]})
         out.append({"id": "path|%s|rec-unbounded" % p[0], "src": prog_rec_unbounded(p), "step_budget": 5_000_000, "depth_limit": 1000, "step_vm_budget": 1_000_000, "kind": "rec-unbounded", "path": p[0]})
         out.append({"id": "path|%s|rec-%d" % (p[0], depth_fin), "src": prog_rec_finite(p, depth_fin), "step_budget": 200 * depth_fin + 1_000_000, "depth_limit": 10 * depth_fin, "step_vm_budget": 1_000_000, "kind": "rec-finite", "path": p[0], "depth": depth_fin})
+        out.append({"id": "path|%s|rec-retry" % p[0], "src": prog_rec_retry(p), "step_budget": 20_000_000, "depth_limit": 1000, "step_vm_budget": 400_000_000, "kind": "rec-retry", "path": p[0]})
         out.append({"id": "path|%s|rec-50" % p[0], "src": prog_rec_finite(p, 50), "step_budget": 1_000_000, "depth_limit": 100_000, "step_vm_budget": 1_000_000, "kind": "rec-small", "path": p[0], "depth": 50})
     for name, tpl in ASYNC_PATHS:
         out.append({"id": "async|%s|loop" % name, "src": "function go(n) { for (;;) { } }\n" + tpl.replace("{A}", "1") + "\n'started'", "step_budget": 300_000, "depth_limit": 1000, "step_vm_budget": 1_000_000, "kind": "loop", "path": name})
@@ -230,7 +239,7 @@ def cases(tier):
             src = "var out; try { var r = %s; out = 'ok:' + (typeof r === 'string' || Array.isArray(r) ? 'len' + r.length : typeof r); } catch (e) { out = 'caught:' + (e && e.name); }\nout" % expr.replace("{N}", z)
             out.append({"id": "size|%s|%s" % (sname, zn), "src": src, "step_budget": 20_000_000, "depth_limit": 100_000, "step_vm_budget": 50_000_000, "kind": "size", "native": sname, "size": zn})
     for dname, setup, expr in DEEP:
-        for n in ([1000, 100_000] if tier == "quick" else [1000, 10_000, 100_000, 1_000_000]):
+        for n in ([1000, 100_000] if tier == "quick" else [1000, 10_000, 30_000, 100_000]):
             if dname == "deep-closure-chain" and n > 10_000:
                 continue    # collector cost grows faster than linearly with the chain (minutes at 10^5): a cost matter (C14), every step still returns
             src = "%s\nvar out; try { out = 'ok:' + String(%s).length; } catch (e) { out = 'caught:' + (e && e.name); }\nout" % (setup.replace("{N}", str(n)), expr.replace("{N}", str(n)))
@@ -255,6 +264,12 @@ def judge(c, o):
         if st == "err":
             return ("hook-error", "%s %s" % (o.get("err"), o.get("msg", "")[:80]))
         return ("unexpected", "status=%s value=%s" % (st, o.get("value")))
+    if k == "rec-retry":
+        if st in ("host-stopped-depth", "host-stopped-steps") or (st == "err" and o.get("err") == "RangeError"):
+            return None
+        if st == "ok":
+            return ("hook-not-invoked", "completed with %s" % o.get("value"))
+        return ("unexpected", "status=%s err=%s" % (st, o.get("err")))
     if k == "rec-unbounded":
         if st == "host-stopped-depth":
             return None
@@ -315,7 +330,7 @@ def run(tier, seed):
             t["cases"] += 1
             if v is None:
                 t["ok"] += 1
-                if c["kind"] in ("loop", "rec-unbounded", "rec-finite"):
+                if c["kind"] in ("loop", "rec-unbounded", "rec-finite", "rec-retry"):
                     good_paths.setdefault(c["path"], set()).add(c["kind"])
                 continue
             aspect, detail = v
@@ -330,12 +345,13 @@ def run(tier, seed):
             cluster = {"loop": "path %s: a callee that loops forever never returns from one step()" % what,
                        "rec-unbounded": "path %s: unbounded recursion is not stoppable by the host's depth limit (%s)" % (what, aspect),
                        "rec-finite": "path %s: deep finite recursion fails (%s)" % (what, aspect),
+                       "rec-retry": "path %s: retrying a refused deep call at the recursion limit (%s)" % (what, aspect),
                        "size": "%s with an oversized argument: %s" % (what, aspect),
                        "deep": "%s on a deep structure: %s" % (what, aspect)}[c["kind"]]
             chk.fail("%s|%s" % (prof, c["id"]), aspect, "%s [%s build]: %s: %s" % (c["id"], prof, aspect, detail[:160]), {"id": c["id"], "tier": tier, "profile": prof}, cluster=cluster)
     chk.coverage = {"evaluations": total, "cases": len(cs), "profiles": profiles, "paths": len(PATHS) + len(ASYNC_PATHS), "sized_natives": len(SIZED), "sizes": [s[0] for s in SIZES], "deep_structures": len(DEEP),
-                    "distinct_nontrivial": sum(len(v) for v in good_paths.values()), "paths_fully_under_host_control": sorted(p for p, v in good_paths.items() if len(v) == 3), "paths_not_reaching_the_callee_on_tsrun": sorted(skipped_uncal), "table": table,
-                    "rule": "every (re-entry path x body) pair of the table: body in {infinite loop, unbounded recursion through the same path, finite recursion of depth %d, depth 50 (calibration)}; host = step counter + call_depth() limit 1000, exactly the CLI's --timeout/--max-depth; a step may execute at most 10^6 VM instructions (hook counter); every (native x size) pair and every (native x deep structure x depth) pair under RLIMIT_AS 2 GiB and an 8 MiB stack, each case attributed to its own worker death/hang" % (10_000 if tier == "quick" else 100_000)}
+                    "distinct_nontrivial": sum(len(v) for v in good_paths.values()), "paths_fully_under_host_control": sorted(p for p, v in good_paths.items() if len(v) == 4), "paths_not_reaching_the_callee_on_tsrun": sorted(skipped_uncal), "table": table,
+                    "rule": "every (re-entry path x body) pair of the table: body in {infinite loop, unbounded recursion through the same path, finite recursion of depth %d, depth 50 (calibration)}; host = step counter + call_depth() limit 1000, exactly the CLI's --timeout/--max-depth; a step may execute at most 10^6 VM instructions (hook counter); every (native x size) pair and every (native x deep structure x depth) pair under RLIMIT_AS 2 GiB and an 8 MiB stack, each case attributed to its own worker death/hang" % (10_000 if tier == "quick" else 30_000)}
     chk.assumptions = ["a path whose callee is not invoked at all on tsrun (hook unsupported) is not judged here", "bounded work = at most 10^6 VM instructions inside one step(); native work that executes no VM instruction is bounded by the hang limit only",
                        "an oversized request may fail with any catchable error or succeed; only death, hang, panic or an Err that escapes try/catch is a violation"]
     return chk.finish(exhaustive=True)
